@@ -49,20 +49,30 @@ def digest(x):
 
 
 class World:
-  def __init__(self, name, seed, same_dims=False, nparams=2, ndata=2, with_arrays=None, indexed=False):
+  def __init__(self, name, seed, same_dims=False, nparams=2, ndata=2, with_arrays=None, indexed=False, wide=False):
     self.name, self.seed = name, seed
     rng = np.random.default_rng(seed)
     self.kind = gen.KIND[name]
     self.has_thr = name in PAIR_CLASSIFIERS
     self.dims = [3] * ndata if same_dims else [2 + i for i in range(ndata)]
     self.indexed = indexed
+    self.wide = wide
     same_dims = same_dims or indexed
     self.dims = [3] * ndata if same_dims else self.dims
     self.same_dims = same_dims
     with_arrays = same_dims if with_arrays is None else with_arrays
     self.train = []
+    if wide:
+      # many more features than samples (60 x 600): scikit-learn's PCA then picks its RANDOMIZED solver, so a PCA
+      # initialisation is only reproducible if the estimator's random_state reaches it
+      self.dims = [600] * ndata
     for i, d in enumerate(self.dims):
-      tr = gen.training(rng, name, d=d, n_classes=2 + (i % 2))
+      if wide:
+        Xw = gen.grid(rng.normal(size=(60, d)) + np.repeat(np.eye(2, d) * 3.0, 30, axis=0), bits=6)
+        yw = np.repeat([0, 1], 30)
+        tr = gen.training(rng, name, X=Xw, y=yw)
+      else:
+        tr = gen.training(rng, name, d=d, n_classes=2 + (i % 2))
       if name == 'RCA' and i % 2 == 1:
         tr['chunks'] = gen.chunks_from(rng, tr['y'], with_unknown=False)     # every point belongs to a chunk
         tr['fit_args'] = (tr['X'], tr['chunks'])
@@ -124,6 +134,12 @@ class World:
       if name == 'RCA_Supervised':
         o['n_chunks'] = 4
       self.P.append(o)
+    if wide:
+      for o in self.P:
+        if name in ('LMNN', 'NCA', 'MLKR'):
+          o['init'] = 'pca'
+          o['n_components'] = 2
+          o['max_iter'] = 3
     # a third setting that differs from the first only in `verbose` (printing must not change what is learned);
     # estimators without that parameter get a plain copy
     p3 = dict(self.P[0])
